@@ -82,6 +82,7 @@ type BloomV struct {
 	ID   int
 	N    *Term // NewWithEstimates n
 	P    *Term // NewWithEstimates p
+	M, K *Term // bloom.New(m, k)
 	Adds []*StrV
 }
 
@@ -161,13 +162,71 @@ func init() {
 		setRes(st, x, &PtrV{Obj: o})
 		return true
 	}
+	// EstimateParameters(n, p) = (m, k): two uninterpreted functions of (n, p), memoised per
+	// argument terms; NewWithEstimates(n, p) is New(EstimateParameters(n, p)).
+	models["github.com/bits-and-blooms/bloom/v3.EstimateParameters"] = func(e *Engine, st *State, x *ssa.Call, args []Value) bool {
+		m, k := e.bloomEstimate(args[0].(*Term), args[1].(*Term))
+		setRes(st, x, TupleV{m, k})
+		return true
+	}
+	models["github.com/bits-and-blooms/bloom/v3.New"] = func(e *Engine, st *State, x *ssa.Call, args []Value) bool {
+		e.nextObj++
+		o := e.newObj(st, nil, &BloomV{ID: e.nextObj, M: args[0].(*Term), K: args[1].(*Term)})
+		setRes(st, x, &PtrV{Obj: o})
+		return true
+	}
+	// vpBloomMeetsEstimate(f, n, p): f has at least the bits and exactly the hash count that
+	// EstimateParameters(n, p) prescribes (so its false positive rate for n entries is <= p under
+	// the library's sizing); for a filter made by NewWithEstimates(n', p'): n' >= n and p' <= p.
+	harnessModels["vpBloomMeetsEstimate"] = func(e *Engine, st *State, x *ssa.Call, args []Value) bool {
+		ts := e.ts
+		b, _ := e.bloomOf(st, args[0])
+		if b == nil {
+			setRes(st, x, ts.Bool(false))
+			return true
+		}
+		n, p := args[1].(*Term), args[2].(*Term)
+		switch {
+		case b.N != nil:
+			setRes(st, x, ts.And(ts.App(BoolSort, "bvuge", b.N, n), ts.App(BoolSort, "fp.leq", b.P, p)))
+		case b.M != nil:
+			m, k := e.bloomEstimate(n, p)
+			setRes(st, x, ts.And(ts.App(BoolSort, "bvuge", b.M, m), ts.Eq(b.K, k)))
+		default:
+			setRes(st, x, ts.Bool(false))
+		}
+		return true
+	}
+	harnessModels["vpBloomAdded"] = func(e *Engine, st *State, x *ssa.Call, args []Value) bool {
+		b, _ := e.bloomOf(st, args[0])
+		key := args[1].(*StrV)
+		ans := e.ts.Bool(false)
+		if b != nil {
+			for _, a := range b.Adds {
+				if len(a.B) == len(key.B) {
+					ans = e.ts.Or(ans, e.strEq(a, key))
+				}
+			}
+		}
+		setRes(st, x, ans)
+		return true
+	}
+	harnessModels["vpBloomAddCount"] = func(e *Engine, st *State, x *ssa.Call, args []Value) bool {
+		b, _ := e.bloomOf(st, args[0])
+		n := 0
+		if b != nil {
+			n = len(b.Adds)
+		}
+		setRes(st, x, e.ts.BVInt(64, int64(n)))
+		return true
+	}
 	models["(*github.com/bits-and-blooms/bloom/v3.BloomFilter).AddString"] = func(e *Engine, st *State, x *ssa.Call, args []Value) bool {
 		b, p := e.bloomOf(st, args[0])
 		if b == nil {
 			e.violation(st, "PANIC", "AddString on nil bloom filter")
 			return false
 		}
-		nb := &BloomV{ID: b.ID, N: b.N, P: b.P, Adds: append(append([]*StrV(nil), b.Adds...), args[1].(*StrV))}
+		nb := &BloomV{ID: b.ID, N: b.N, P: b.P, M: b.M, K: b.K, Adds: append(append([]*StrV(nil), b.Adds...), args[1].(*StrV))}
 		st.heap[p.Obj.ID] = nb
 		setRes(st, x, p)
 		return true
@@ -255,7 +314,38 @@ func init() {
 			setRes(st, x, TupleV{opaque(3), nilErr()})
 			return true
 		}
-		setRes(st, x, TupleV{opaque(2), nilErr()})
+		// any other value (the file footer's metadata struct): opaque bytes that remember what they
+		// encode, so that json.Unmarshal of the same bytes yields the value back (ghost pairing)
+		ob := opaque(2).(*SliceV)
+		key := "json"
+		for _, el := range e.sliceElems(st, ob) {
+			key += fmt.Sprintf(":%d", el.(*Term).id)
+		}
+		e.jsonMemo[key] = iv
+		setRes(st, x, TupleV{ob, nilErr()})
+		return true
+	}
+	models["encoding/json.Unmarshal"] = func(e *Engine, st *State, x *ssa.Call, args []Value) bool {
+		sl := args[0].(*SliceV)
+		key := "json"
+		if sl.Obj != nil {
+			if _, isArr := st.heap[sl.Obj.ID].(*ArrayV); isArr {
+				for _, el := range e.sliceElems(st, sl) {
+					key += fmt.Sprintf(":%d", el.(*Term).id)
+				}
+			}
+		}
+		src, ok := e.jsonMemo[key]
+		if !ok {
+			e.abort("UNMODELLED json.Unmarshal of bytes that no json.Marshal call of this run produced")
+		}
+		dst := args[1].(*IfaceV)
+		p, isPtr := dst.V.(*PtrV)
+		if !isPtr || p.Obj == nil {
+			e.abort("UNMODELLED json.Unmarshal into %T", dst.V)
+		}
+		e.store(st, p, src.V)
+		setRes(st, x, nilErr())
 		return true
 	}
 	models["(*bytes.Buffer).WriteByte"] = func(e *Engine, st *State, x *ssa.Call, args []Value) bool {
@@ -362,12 +452,21 @@ func (e *Engine) plainJSONObject(mv *MapV) (string, bool) {
 		if !ok {
 			return "", false
 		}
-		vs, ok := iv.V.(*StrV)
-		if !ok {
-			return "", false
-		}
-		val, ok := strConcrete(vs)
-		if !ok || !plain(val) {
+		var val string
+		switch vv := iv.V.(type) {
+		case *StrV:
+			sv, ok := strConcrete(vv)
+			if !ok || !plain(sv) {
+				return "", false
+			}
+			val = "\"" + sv + "\""
+		case *Term: // a concrete integer of a signed integer type
+			w, sg, isInt := intWidth(iv.T)
+			if !isInt || !sg || !vv.IsConst() {
+				return "", false
+			}
+			val = signed(w, vv.cv).String()
+		default:
 			return "", false
 		}
 		kvs = append(kvs, kv{key, val})
@@ -378,7 +477,24 @@ func (e *Engine) plainJSONObject(mv *MapV) (string, bool) {
 		if i > 0 {
 			out += ","
 		}
-		out += "\"" + p.k + "\":\"" + p.v + "\""
+		out += "\"" + p.k + "\":" + p.v
 	}
 	return out + "}", true
+}
+
+
+func (e *Engine) bloomEstimate(n, p *Term) (*Term, *Term) {
+	km := fmt.Sprintf("bloomM:%d:%d", n.id, p.id)
+	m, ok := e.crcMemo[km]
+	if !ok {
+		m = e.ts.Var("bloom_m", BV(64))
+		e.crcMemo[km] = m
+	}
+	kk := fmt.Sprintf("bloomK:%d:%d", n.id, p.id)
+	k, ok := e.crcMemo[kk]
+	if !ok {
+		k = e.ts.Var("bloom_k", BV(64))
+		e.crcMemo[kk] = k
+	}
+	return m, k
 }
